@@ -100,6 +100,13 @@ var verifFrags = []string{
 	"-> { 1 }", "1..2", "x ? 1 : 2", "puts(\"a\", 1)", "\"a#{x}b\"", "begin\n1\nrescue => e\n2\nend", "while x\nbreak\nend", "case x\nwhen 1 then 2\nend",
 	"x = *a", "def g(*a, **k, &b)\nend", "g(*a)", "x.y.z", "Foo::Bar.new", "@@c", "defined?", "next", "ensure", "loop do\nend", "def g = 1", "x = y = 1",
 	"a, *b = 1, 2", "x.foo = 1", "x += 1", "[1, \"s\"].first", "{k: 1}[:k]", "return 1 if x", "foo 1, 2", "x.each_with_index do |e, i|\nend",
+	// anonymous / empty names, block-pass arguments, multi-line literals as arguments, wide rows
+	"def \"\"\nend", "def g(*)\n1\nend\ng(1)", "def g(**)\nend", "def g(&)\nend", "[1, 2].max(1, &b)", "[1, 2].first(&b)", "[1].slice(\"x\ny\")", "[1].first(\"x\ny\")", "foo(\"x\ny\")",
+	"[[1, 2, 3, 4, 5, 6, 7, 8, 9, 10, 11, 12, 13, 14, 15, 16, 17, 18, 19, 20, 21, 22]].each do |m, n|\nend", "[1].each do |m, *|\nend", "[1].each { |*| 1 }", "def g(a, b = 1, *c, d:, e: 2, **f, &h)\nend",
+	"x = [1, 2, 3, 4, 5, 6, 7, 8, 9, 10, 11, 12, 13, 14, 15, 16, 17, 18, 19, 20, 21, 22]", "g(1, 2, 3, 4, 5, 6, 7, 8, 9, 10, 11, 12, 13, 14, 15, 16, 17, 18, 19, 20, 21, 22)", "a, b, c, d, e, f = 1, 2",
+	// safe navigation on typed receivers, chained calls, calls on results of failing calls
+	"n = nil\nn&.abs", "n = nil\nn&.abs.to_s", "s = \"a\"\ns&.upcase", "u = true ? 1 : nil\nu&.to_s", "[1].first&.to_s", "n = nil\nn.abs", "q = [1].nope\nq.first", "[1].first.nope.first",
+	"h = {k: 1}\nh[:k]&.to_s", "class K\ndef m\nend\nend\nK.new&.m", "K.new.m(", "x = (1", "[1, 2].each do |e|", "def f(a", "for a", "class << self", "module M\nclass << self", "class A < B\nend\nclass B < A\nend",
 }
 
 const verifCoreN = 36
